@@ -384,7 +384,8 @@ CHECKS = {
         "title": "Archive then extract gives the same tree for any concurrency and resume point",
         "level": "fault_enumeration",
         "technique": "rapid property-based testing of zip/tar round trips with a gated io.ReaderAt that constructs out-of-order completion, plus enumeration of crash points in a re-executed child process; race-detector stage",
-        "level_text": ("Generated trees (nested and empty dirs, empty files, symlinks, many small files, one large file among small ones); zip x "
+        "level_text": ("Generated trees (nested and empty dirs, empty files, symlinks, many small files, one large file among small ones); zip "
+                       "(archiver.CompressZip with stored entries, or - one third - containerarchiver.CompressZip from the walked container with deflated entries) x "
                        "Concurrency in {-1, 0, 1..16}; tar; GOMAXPROCS 1/2/3 in a quarter of the ungated cases, and a stage whose processes are confined to ONE usable CPU "
                        "(taskset; runtime.NumCPU()==1, where 'all cores but one' is zero). The io.ReaderAt handed to ExtractZip delays the first data read of a chosen entry until N "
                        "other entries have completed, so out-of-order completion is constructed, not hoped for. Crash stage: the test binary "
@@ -397,7 +398,7 @@ CHECKS = {
                  ">=2 workers with a constructed out-of-order completion (round trip); a crash while a gated lower-index entry is in flight "
                  "(crash stage). Distinct: SHA-1 of the spec."),
         "assumptions": ["the destination directory exists and is empty, as the statement says"],
-        "required_classes": {"quick": ["format:tar", "format:zip", "schedule:constructed-out-of-order-completion", "crash:with-in-flight-lower-index-entry", "tree:one-large-among-small", "workers:-1", "workers:0", "gomaxprocs:1", "env:one-usable-cpu"],
+        "required_classes": {"quick": ["format:tar", "format:zip", "schedule:constructed-out-of-order-completion", "crash:with-in-flight-lower-index-entry", "tree:one-large-among-small", "workers:-1", "workers:0", "gomaxprocs:1", "env:one-usable-cpu", "zip:containerarchiver-deflate"],
                              "thorough": ["format:tar", "format:zip", "schedule:constructed-out-of-order-completion", "crash:with-in-flight-lower-index-entry", "tree:one-large-among-small", "workers:-1", "workers:16"]},
         "stages": [rapid("roundtrip", "TestProp", 4800, 192000, qs=16, ts=16, qt=600, tt=5400, schedule_dependent=True),
                    rapid("crash", "TestCrash", 480, 19200, qs=16, ts=16, qt=900, tt=5400, schedule_dependent=True, shrinktime="20s"),
